@@ -105,6 +105,7 @@ func repairMemGal(a *App) string {
 }
 
 func c10Run(in c10In) c10Out {
+	vk.Running("repair", in)
 	var out c10Out
 	dir, _ := os.MkdirTemp("", "c10")
 	defer os.RemoveAll(dir)
@@ -583,6 +584,9 @@ func c10Drive(t *testing.T, o *vk.Out, m *vk.Meta, monitor func(*vk.Meta, c10In,
 						}
 					}
 					fin.Fault = &vk.Fault{Host: e.Host, Kind: e.Kind, Nth: nth, Action: []string{"err:1105", "drop", "applydrop"}[o.Rng.Intn(3)]}
+					if e.Kind == "SShowReplica" && o.Rng.Intn(2) == 0 {
+						fin.Fault.Action = "unchannel" // the channel is removed from outside right before the status is read
+					}
 				} else if op := map[string]string{"DcsGet": "get", "DcsSet": "set", "DcsCreate": "create", "DcsChildren": "children"}[e.Kind]; op != "" {
 					fin.DcsFault = &memFault{Op: op, Path: e.Arg, Nth: 0}
 				}
